@@ -736,6 +736,8 @@ def order_independence_rule(ctx, rule: str):
             return True
         if isinstance(par, ast.Call) and node in par.args and ast.unparse(par.func) in ("itertools.chain", "chain", "itertools.zip_longest", "collections.Counter"):
             return True
+        if isinstance(par, ast.Call) and node in par.args and isinstance(par.func, ast.Attribute) and par.func.attr == "join" and len(par.args) == 1:
+            return True  # sep.join(collection)
         if isinstance(par, ast.Call) and node in par.args and depth > 0:
             # handed to a function of the repository: every use of the parameter in there consumes it as a whole
             g = None
@@ -745,9 +747,19 @@ def order_independence_rule(ctx, rule: str):
                 for ci in mod.classes.values():
                     if ci.node.lineno <= par.lineno <= (ci.node.end_lineno or par.lineno):
                         _, g = p.class_attr_def(ci, par.func.attr)
+            elif isinstance(par.func, ast.Attribute) and isinstance(par.func.value, ast.Name):
+                # _Value.of(...): an alternative constructor / static helper of a class of the repository
+                try:
+                    c_ = p.resolve_expr(mod, par.func.value)
+                except Exception:
+                    c_ = None
+                if isinstance(c_, ClassInfo):
+                    _, g = p.class_attr_def(c_, par.func.attr)
+                    if isinstance(g, FuncInfo) and g.kind not in ("classmethod", "staticmethod"):
+                        g = None
             if isinstance(g, FuncInfo) and not any(isinstance(x, ast.Starred) for x in par.args):
                 params = [x.arg for x in g.node.args.posonlyargs + g.node.args.args]
-                if g.owner is not None and g.kind == "method" and isinstance(par.func, ast.Attribute):
+                if g.owner is not None and g.kind in ("method", "classmethod") and isinstance(par.func, ast.Attribute):
                     params = params[1:]
                 k = par.args.index(node)
                 if k < len(params):
@@ -1152,6 +1164,17 @@ def read_set_rule(ctx, rule: str, records):
     from .roles import citation_functions
 
     rewrite_names = {f.name for f in citation_functions(p)}
+    # helpers / context managers that do nothing with a record but hand it to the rewrite pair
+    from .roles import layer_functions, reach, manager_phases
+
+    pair = citation_functions(p)
+    phases = set(id(f) for f in manager_phases(p).values())
+    orchestration = {f.name for f in layer_functions(p)
+                     if f.name != "assemble" and id(f) not in phases and any(g in reach(p, f) for g in pair)}
+    # ... and classes of the layer whose methods do (a context manager object built from the records)
+    orchestration |= {f.owner.name for f in layer_functions(p)
+                      if f.owner is not None and f.owner.name != "AssemblyManager" and f.name in ("__enter__", "__exit__", "__init__", "__call__")
+                      and any(any(g in reach(p, m_) for g in pair) for m_ in f.owner.attrs.values() if isinstance(m_, FuncInfo))}
     m = p.modules["moclo.core._assembly"]
     parents: Dict[int, ast.AST] = {}
     for node in ast.walk(m.tree):
@@ -1162,11 +1185,39 @@ def read_set_rule(ctx, rule: str, records):
             root, path = chain_of(node)
             par = parents.get(id(node))
             ok = False
+            val = node
+            # the records of the elements collected for a call: (elem.record for elem in self.elements), [..], map(...)
+            while isinstance(par, (ast.GeneratorExp, ast.ListComp, ast.SetComp)) and par.elt is val:
+                val, par = par, parents.get(id(par))
+            def call_ok(call, v):
+                if not (isinstance(call, ast.Call) and (v in call.args or any(k.value is v for k in call.keywords)) and isinstance(call.func, (ast.Attribute, ast.Name))):
+                    return False
+                nm = call.func.attr if isinstance(call.func, ast.Attribute) else call.func.id
+                return nm in rewrite_names or nm in orchestration
+
+            def name_uses_ok(name, fn, depth=2):
+                """every use of the local `name` (a record, or the list of the elements' records) hands it to the rewrite"""
+                uses = [n for n in ast.walk(fn) if isinstance(n, ast.Name) and n.id == name and isinstance(n.ctx, ast.Load)]
+                if not uses:
+                    return False
+                for u in uses:
+                    pu = parents.get(id(u))
+                    if call_ok(pu, u):
+                        continue
+                    if isinstance(pu, ast.For) and pu.iter is u and isinstance(pu.target, ast.Name) and depth > 0 and name_uses_ok(pu.target.id, pu, depth - 1):
+                        continue
+                    return False
+                return True
+
             if isinstance(par, ast.Attribute) and par.attr == "id":
                 ok = True
-            elif isinstance(par, ast.Call) and node in par.args and isinstance(par.func, (ast.Attribute, ast.Name)) \
-                    and (par.func.attr if isinstance(par.func, ast.Attribute) else par.func.id) in rewrite_names:
+            elif call_ok(par, val):
                 ok = True
+            elif isinstance(par, ast.Assign) and par.value is val and len(par.targets) == 1 and isinstance(par.targets[0], ast.Name):
+                fn = par
+                while fn is not None and not isinstance(fn, (ast.FunctionDef, ast.AsyncFunctionDef)):
+                    fn = parents.get(id(fn))
+                ok = fn is not None and name_uses_ok(par.targets[0].id, fn)
             r.ob(rule + ".record-uses", "moclo.core._assembly#%s" % re.sub(r"\W+", "", m.segment(par) or "")[:60], ok,
                  "an input's record is used for something other than its id or the citation rewrite: `%s`" % re.sub(r"\s+", " ", m.segment(par) or "")[:100],
                  "%s:%d" % (m.relpath, node.lineno))
